@@ -315,6 +315,20 @@ impl Server {
                 json!({"ok": true, "values": res, "digest": digest_json(ctx)})
             }),
             "names" => self.with_session(req, |ctx, _| op_names(ctx)),
+            // `info <keyword>` and `list`: the other two kinds of output the front ends render (as HTML in the web version)
+            "info" => self.with_session(req, |ctx, req| {
+                let kw = req.get("keyword").and_then(|v| v.as_str()).unwrap_or("").to_string();
+                match catch_unwind(AssertUnwindSafe(|| ctx.print_info_for_keyword(&kw))) {
+                    Ok(m) => json!({"ok": true, "plain": plain(&m), "html": html(&m)}),
+                    Err(_) => json!({"ok": false, "status": "panic", "panic": take_panic()}),
+                }
+            }),
+            "environment" => self.with_session(req, |ctx, _| {
+                match catch_unwind(AssertUnwindSafe(|| ctx.print_environment())) {
+                    Ok(m) => json!({"ok": true, "plain": plain(&m), "html": html(&m)}),
+                    Err(_) => json!({"ok": false, "status": "panic", "panic": take_panic()}),
+                }
+            }),
             "unitdb" => self.with_session(req, |ctx, _| out::unitdb_json(ctx)),
             "resolve" => self.with_session(req, |ctx, req| {
                 let mut res = vec![];
